@@ -25,6 +25,7 @@
 #include <unistd.h>
 #include <fcntl.h>
 #include <sys/wait.h>
+#include <signal.h>
 #include "proto.h"
 
 #define MAXT 4
@@ -176,6 +177,7 @@ int main(void)
         if (pid == 0) {
             close(fd[0]); dup2(fd[1], 1); close(fd[1]);
             setvbuf(stdout, NULL, _IONBF, 0);
+            alarm(3);                 /* a run whose threads block each other for good is killed (SIGALRM) */
             run_line(vp_tok + 2, vp_ntok - 2);
             fflush(stdout);
             exit(0);
@@ -192,7 +194,8 @@ int main(void)
             p = strstr(buf, " tests failed"); if (p) { while (p > buf && p[-1] >= '0' && p[-1] <= '9') p--; sscanf(p, "%u", &failed); }
             (void)failed;
             printf("count=%u fail=%d\n", total, !(WIFEXITED(st) && WEXITSTATUS(st) == 0));
-        } else if (!WIFEXITED(st) || WEXITSTATUS(st) != 0 || len == 0) printf("died status=%d\n", st);
+        } else if (WIFSIGNALED(st) && WTERMSIG(st) == SIGALRM) puts("blocked-forever");
+        else if (!WIFEXITED(st) || WEXITSTATUS(st) != 0 || len == 0) printf("died status=%d\n", st);
         else fputs(buf, stdout);
     }
     return 0;
